@@ -464,11 +464,11 @@ Section Refine.
   Proof.
     induction rest as [|c r IH]; intros base a b Ha E.
     - symmetry in E. apply app_eq_nil in E as [E _]. congruence.
-    - destruct a as [|c' a']; [congruence|]. simpl in E. inversion E; subst c'. cbn [dirs_between].
+    - destruct a as [|c' a']; [congruence|]. simpl in E. injection E as E1 E2. subst c'. cbn [dirs_between].
       destruct a' as [|c2 a2].
       + left. reflexivity.
       + right. replace (base ++ c :: c2 :: a2) with ((base ++ [c]) ++ c2 :: a2) by (rewrite <- app_assoc; reflexivity).
-        apply IH with b; [discriminate|exact H1].
+        apply (IH (base ++ [c]) (c2 :: a2) b); [discriminate|exact E2].
   Qed.
 
   Lemma anc_dirs_spec : forall loc d, good_loc loc ->
@@ -647,5 +647,233 @@ Section Refine.
   Proof.
     intros pid cnt todo outs fs H. eapply steps_trans; [apply st_start|]. cbn [start].
     eapply steps_trans; [apply mkdirs_exist; exact H|]. apply st_mkdirs_nil_idle.
+  Qed.
+  (* ---------------------------------------------------------------------------------------------------------------- *)
+  (* consequences of R *)
+  Lemma R_exists_visible : forall fs st x n, R fs st -> fs x = Some n -> visible x = true.
+  Proof.
+    intros fs st x n (_ & _ & _ & _ & Hnt & _) Hx. destruct (visible x) eqn:E; [reflexivity|].
+    rewrite (Hnt x E) in Hx. discriminate.
+  Qed.
+
+  Lemma R_blobs_dir : forall fs st, R fs st -> fs blobs_dir = Some NDir.
+  Proof.
+    intros fs st (Hd & _). apply Hd. unfold CrashProofs.init_dirs. apply in_or_app. right. apply in_or_app. right.
+    left. reflexivity.
+  Qed.
+
+  Lemma R_visible_root : forall fs st, R fs st -> visible root = true.
+  Proof.
+    intros fs st HR. pose proof (R_exists_visible fs st _ _ HR (R_blobs_dir fs st HR)) as H.
+    unfold LocalProgs.blobs_dir in H. eapply visible_app_l. exact H.
+  Qed.
+
+  Lemma R_visible_data : forall fs st, R fs st -> visible data = true.
+  Proof. intros fs st HR. pose proof HR as (_ & Hdata & _). exact (R_exists_visible fs st _ _ HR Hdata). Qed.
+
+  Lemma R_zone : forall fs st loc, R fs st -> good_loc loc -> zone fs (a_paths st) loc.
+  Proof.
+    intros fs st loc (_ & _ & _ & _ & _ & _ & _ & _ & Hz) [Hv (segs & Hne & E)]. subst loc. apply Hz; assumption.
+  Qed.
+
+  (* the two directions quoted in the description of R *)
+  Lemma R_link_iff : forall fs st loc k, R fs st -> good_loc loc ->
+    (fs loc = Some (NLink (blob k)) <-> lookup loc (a_paths st) = Some k).
+  Proof.
+    intros fs st loc k HR Hl. pose proof (R_zone fs st loc HR Hl) as Hz. unfold zone in Hz.
+    destruct (lookup loc (a_paths st)) as [k'|] eqn:E.
+    - rewrite Hz. split; intro H.
+      + inversion H as [H1]. apply blob_inj in H1. congruence.
+      + congruence.
+    - split; [|discriminate]. intro H. destruct (is_anc loc (a_paths st)); congruence.
+  Qed.
+
+  Lemma R_absent : forall fs st loc, R fs st -> good_loc loc ->
+    (fs loc = None -> lookup loc (a_paths st) = None) /\
+    (lookup loc (a_paths st) = None -> fs loc = None \/ (fs loc = Some NDir /\ is_anc loc (a_paths st) = true)).
+  Proof.
+    intros fs st loc HR Hl. pose proof (R_zone fs st loc HR Hl) as Hz. unfold zone in Hz.
+    destruct (lookup loc (a_paths st)) as [k'|] eqn:E.
+    - split; [congruence|discriminate].
+    - split; [reflexivity|]. intros _. destruct (is_anc loc (a_paths st)); auto.
+  Qed.
+
+  Definition compat (ps : list (path * bytes)) (loc : path) : Prop :=
+    forall l, In l (map fst ps) -> is_prefix l loc = true \/ is_prefix loc l = true -> l = loc.
+
+  Lemma anc_is_prefix : forall loc d, good_loc loc -> In d (anc_dirs loc) -> sprefix d loc = true /\ good_loc d.
+  Proof.
+    intros loc d Hl Hd. pose proof (anc_visible loc d Hl Hd) as Hv.
+    apply (anc_dirs_spec loc d Hl) in Hd as (a & b & Ha & Hb & Hda & E). split.
+    - apply sprefix_spec. exists b. auto.
+    - split; [exact Hv|]. exists a. auto.
+  Qed.
+
+  Lemma sprefix_in_anc : forall loc d, good_loc loc -> good_loc d -> sprefix d loc = true -> In d (anc_dirs loc).
+  Proof.
+    intros loc d Hl [_ (a & Ha & Hd)] H. apply sprefix_spec in H as (b & Hb & E).
+    apply (anc_dirs_spec loc d Hl). exists a, b. auto.
+  Qed.
+
+  Lemma R_loc_free : forall fs st loc, R fs st -> good_loc loc -> compat (a_paths st) loc ->
+    fs loc = None \/ exists t, fs loc = Some (NLink t).
+  Proof.
+    intros fs st loc HR Hl Hc. pose proof (R_zone fs st loc HR Hl) as Hz. unfold zone in Hz.
+    destruct (lookup loc (a_paths st)) as [k'|]; [right; eauto|].
+    destruct (is_anc loc (a_paths st)) eqn:Ea; [|left; exact Hz].
+    exfalso. apply is_anc_spec in Ea as (l & Hin & Hs). apply (sprefix_neq _ _ Hs). symmetry.
+    apply Hc; [exact Hin|]. right. apply sprefix_prefix. exact Hs.
+  Qed.
+
+  Lemma R_anc : forall fs st loc d, R fs st -> good_loc loc -> compat (a_paths st) loc -> In d (anc_dirs loc) ->
+    lookup d (a_paths st) = None /\ (fs d = None \/ fs d = Some NDir).
+  Proof.
+    intros fs st loc d HR Hl Hc Hd. destruct (anc_is_prefix loc d Hl Hd) as [Hs Hgd].
+    pose proof (R_zone fs st d HR Hgd) as Hz. unfold zone in Hz.
+    destruct (lookup d (a_paths st)) as [k'|] eqn:E.
+    - exfalso. apply (sprefix_neq _ _ Hs). apply Hc; [eapply lookup_Some_dom; exact E|]. left. apply sprefix_prefix. exact Hs.
+    - split; [reflexivity|]. destruct (is_anc d (a_paths st)); auto.
+  Qed.
+
+  Lemma parent_neq : forall loc : path, loc <> [] -> parent loc <> loc.
+  Proof.
+    intros loc Hne E. destruct (exists_last Hne) as (a & c & Ea). subst loc. rewrite parent_snoc in E.
+    rewrite <- (app_nil_r a) in E at 1. apply app_inv_head in E. discriminate.
+  Qed.
+
+  Lemma R_anc_closed : forall fs st loc, R fs st -> good_loc loc -> compat (a_paths st) loc ->
+    fs_exists fs (parent loc) = true -> forall d, In d (anc_dirs loc) -> fs d = Some NDir.
+  Proof.
+    intros fs st loc HR Hl Hc He d Hd.
+    destruct (parent_in_anc loc Hl) as [Ep|Hp].
+    - (* the parent is data: no ancestor below data *)
+      exfalso. apply (anc_dirs_spec loc d Hl) in Hd as (a & b & Ha & Hb & Hda & E).
+      rewrite E in Ep. unfold parent in Ep. rewrite (removelast_app d Hb) in Ep. rewrite Hda in Ep.
+      rewrite <- app_assoc in Ep. rewrite <- (app_nil_r data) in Ep at 2. apply app_inv_head in Ep.
+      apply app_eq_nil in Ep as [Ep _]. congruence.
+    - destruct (anc_is_prefix loc _ Hl Hp) as [Hsp Hgp].
+      destruct (R_anc fs st loc _ HR Hl Hc Hp) as [Hlp Hfp].
+      pose proof (R_zone fs st _ HR Hgp) as Hz. unfold zone in Hz. rewrite Hlp in Hz.
+      destruct (is_anc (parent loc) (a_paths st)) eqn:Ea.
+      + apply is_anc_spec in Ea as (l & Hin & Hs).
+        destruct (anc_is_prefix loc d Hl Hd) as [Hsd Hgd].
+        destruct (R_anc fs st loc d HR Hl Hc Hd) as [Hld _].
+        pose proof (R_zone fs st d HR Hgd) as Hzd. unfold zone in Hzd. rewrite Hld in Hzd.
+        assert (Hdp : is_prefix d (parent loc) = true).
+        { apply (anc_dirs_spec loc d Hl) in Hd as (a & b & Ha & Hb & Hda & E). apply is_prefix_spec.
+          exists (removelast b). rewrite E at 1. unfold parent. apply removelast_app. exact Hb. }
+        assert (Hda : is_anc d (a_paths st) = true).
+        { apply is_anc_spec. exists l. split; [exact Hin|]. eapply prefix_sprefix; eassumption. }
+        rewrite Hda in Hzd. exact Hzd.
+      + unfold fs_exists in He. rewrite Hz in He. discriminate.
+  Qed.
+
+  Lemma is_anc_cons : forall d l k ps, is_anc d ((l, k) :: ps) = sprefix d l || is_anc d ps.
+  Proof. reflexivity. Qed.
+
+  (* ---- R is preserved by the effect of store_blob ---- *)
+  Lemma R_store : forall fs fs' st k, separated -> R fs st -> good_key k = true ->
+    (forall x, fs' x = store_fs fs k x) -> R fs' (AState (k :: a_keys st) (a_paths st)).
+  Proof.
+    intros fs fs' st k Hsep HR Hk Hf. pose proof (R_visible_root fs st HR) as Hvr.
+    destruct HR as (Hd & Hdata & HB & HL & Hnt & Hmk & Hwf & Hpf & Hz).
+    assert (Hbm : blob k <> meta k) by (apply blob_not_meta; exact Hk).
+    assert (Hkeep : forall x, x <> meta k -> x <> blob k -> fs' x = fs x).
+    { intros x H1 H2. rewrite Hf. unfold store_fs. rewrite (path_eqb_neq _ _ H1), (path_eqb_neq _ _ H2). reflexivity. }
+    assert (Hfm : fs' (meta k) = Some (NFile (menc k))).
+    { rewrite Hf. unfold store_fs. rewrite path_eqb_refl. reflexivity. }
+    assert (Hfb : fs' (blob k) = Some (NFile (enc k))).
+    { rewrite Hf. unfold store_fs. rewrite (path_eqb_neq _ _ Hbm), path_eqb_refl. reflexivity. }
+    assert (Hnf : forall x, fs x = Some NDir -> fs' x = Some NDir).
+    { intros x Hx. rewrite <- Hx. apply Hkeep; intro E; subst x.
+      - destruct (HB k Hk) as [_ H2]. destruct (H2 _ Hx) as [E _]. discriminate.
+      - destruct (HB k Hk) as [H1 _]. specialize (H1 _ Hx). discriminate. }
+    split; [|split; [|split; [|split; [|split; [|split; [|split; [|split]]]]]]].
+    - intros d Hin. apply Hnf. apply Hd. exact Hin.
+    - apply Hnf. exact Hdata.
+    - intros k' Hk'. destruct (HB k' Hk') as [B1 B2]. split.
+      + intros n Hn. destruct (path_eq_dec (blob k') (blob k)) as [E|E].
+        * apply blob_inj in E. subst k'. rewrite Hfb in Hn. congruence.
+        * rewrite Hkeep in Hn; [apply B1; exact Hn|apply blob_not_meta; exact Hk'|exact E].
+      + intros n Hn. destruct (path_eq_dec (meta k') (meta k)) as [E|E].
+        * apply meta_inj in E. subst k'. rewrite Hfm in Hn. split; [congruence|exact Hfb].
+        * rewrite Hkeep in Hn; [|exact E|intro E'; symmetry in E'; exact (blob_not_meta root k k' Hk E')].
+          destruct (B2 _ Hn) as [E1 E2]. split; [exact E1|].
+          destruct (path_eq_dec (blob k') (blob k)) as [E3|E3].
+          -- apply blob_inj in E3. subst k'. exact Hfb.
+          -- rewrite Hkeep; [exact E2|apply blob_not_meta; exact Hk'|exact E3].
+    - intros loc t Hv Hl. apply (HL loc t Hv). rewrite <- Hkeep; [exact Hl| |]; intro E; subst loc; congruence.
+    - intros x Hx. rewrite Hkeep; [apply Hnt; exact Hx| |]; intro E; subst x.
+      + rewrite (meta_visible root k Hvr) in Hx. discriminate.
+      + rewrite (blob_visible root k Hvr) in Hx. discriminate.
+    - intros k' Hk'. cbn [a_keys]. destruct (path_eq_dec (meta k') (meta k)) as [E|E].
+      + apply meta_inj in E. subst k'. split; [intros _; left; reflexivity|intros _; rewrite Hfm; discriminate].
+      + rewrite Hkeep; [|exact E|intro E'; symmetry in E'; exact (blob_not_meta root k k' Hk E')].
+        rewrite (Hmk k' Hk'). split; [intro H; right; exact H|]. intros [H|H]; [subst k'; congruence|exact H].
+    - intros l k0 Hin. cbn [a_paths a_keys] in *. destruct (Hwf l k0 Hin) as (A & B & C).
+      split; [exact A|]. split; [right; exact B|exact C].
+    - exact Hpf.
+    - intros segs Hne Hv. cbn [a_paths]. specialize (Hz segs Hne Hv).
+      assert (Hgl : good_loc (data ++ segs)) by (split; [exact Hv|exists segs; auto]).
+      assert (Hx : fs' (data ++ segs) = fs (data ++ segs)).
+      { apply Hkeep; intro E; apply (good_loc_not_in_blobs root data _ Hsep Hgl); rewrite E;
+          [apply meta_in_blobs|apply blob_in_blobs]. }
+      unfold zone in *. rewrite Hx. exact Hz.
+  Qed.
+
+  (* ---- R is preserved by the effect of committing one location ---- *)
+  Lemma R_item : forall fs fs' st loc k, separated -> R fs st -> good_key k = true -> In k (a_keys st) ->
+    good_loc loc -> compat (a_paths st) loc ->
+    (forall x, fs' x = item_fs fs loc k x) -> R fs' (AState (a_keys st) ((loc, k) :: a_paths st)).
+  Proof.
+    intros fs fs' st loc k Hsep HR Hk Hin Hl Hc Hf.
+    pose proof (R_loc_free fs st loc HR Hl Hc) as Hfree.
+    pose proof (fun d => R_anc fs st loc d HR Hl Hc) as Hanc.
+    pose proof (fun x => R_zone fs st x HR) as Hzone.
+    destruct HR as (Hd & Hdata & HB & HL & Hnt & Hmk & Hwf & Hpf & Hz).
+    assert (Hanc' : forall d, In d (anc_dirs loc) -> fs' d = Some NDir).
+    { intros d H. rewrite Hf. unfold item_fs. rewrite (proj2 (existsb_path_In _ _) H). reflexivity. }
+    assert (Hloc' : fs' loc = Some (NLink (blob k))).
+    { rewrite Hf. unfold item_fs. rewrite (existsb_path_notin _ _ (anc_neq_loc loc Hl)). rewrite path_eqb_refl. reflexivity. }
+    assert (Hother : forall x, ~ In x (anc_dirs loc) -> x <> loc -> fs' x = fs x).
+    { intros x H1 H2. rewrite Hf. unfold item_fs. rewrite (existsb_path_notin _ _ H1). rewrite (path_eqb_neq _ _ H2). reflexivity. }
+    assert (Hnb : forall x, in_blobs root x -> fs' x = fs x).
+    { intros x Hx. apply Hother.
+      - intro H. destruct (anc_is_prefix loc x Hl H) as [_ Hg]. exact (good_loc_not_in_blobs root data x Hsep Hg Hx).
+      - intro E. subst x. exact (good_loc_not_in_blobs root data loc Hsep Hl Hx). }
+    assert (Hdk : forall x, fs x = Some NDir -> fs' x = Some NDir).
+    { intros x Hx. destruct (in_dec path_eq_dec x (anc_dirs loc)) as [H|H]; [apply Hanc'; exact H|].
+      rewrite Hother; [exact Hx|exact H|]. intro E. subst x. destruct Hfree as [Hn|[t Ht]]; congruence. }
+    split; [|split; [|split; [|split; [|split; [|split; [|split; [|split]]]]]]].
+    - intros d H. apply Hdk. apply Hd. exact H.
+    - apply Hdk. exact Hdata.
+    - intros k' Hk'. rewrite (Hnb _ (blob_in_blobs root k')). rewrite (Hnb _ (meta_in_blobs root k')). exact (HB k' Hk').
+    - intros x t Hv Hx. destruct (in_dec path_eq_dec x (anc_dirs loc)) as [H|H].
+      + rewrite (Hanc' x H) in Hx. discriminate.
+      + destruct (path_eq_dec x loc) as [E|E].
+        * subst x. rewrite Hloc' in Hx. inversion Hx. exists k. auto.
+        * rewrite (Hother x H E) in Hx. exact (HL x t Hv Hx).
+    - intros x Hx. rewrite Hother; [apply Hnt; exact Hx| |].
+      + intro H. rewrite (anc_visible loc x Hl H) in Hx. discriminate.
+      + intro E. subst x. rewrite (good_loc_visible data loc Hl) in Hx. discriminate.
+    - intros k' Hk'. cbn [a_keys]. rewrite (Hnb _ (meta_in_blobs root k')). exact (Hmk k' Hk').
+    - intros l k0 H. cbn [a_paths a_keys] in *. destruct H as [H|H]; [inversion H; subst; auto|exact (Hwf l k0 H)].
+    - intros l l' H1 H2 Hp. cbn [a_paths map fst] in H1, H2. destruct H1 as [H1|H1], H2 as [H2|H2].
+      + congruence.
+      + subst l. symmetry. apply Hc; [exact H2|]. right. exact Hp.
+      + subst l'. apply Hc; [exact H1|]. left. exact Hp.
+      + exact (Hpf l l' H1 H2 Hp).
+    - intros segs Hne Hv. cbn [a_paths]. set (x := data ++ segs).
+      assert (Hgx : good_loc x) by (split; [exact Hv|exists segs; auto]).
+      unfold zone. cbn [lookup]. rewrite is_anc_cons.
+      destruct (path_eqb x loc) eqn:E.
+      + apply path_eqb_eq in E. rewrite E. exact Hloc'.
+      + assert (Hxl : x <> loc) by (intro E'; rewrite E' in E; rewrite path_eqb_refl in E; discriminate).
+        destruct (in_dec path_eq_dec x (anc_dirs loc)) as [H|H].
+        * destruct (Hanc x H) as [Hlx _]. rewrite Hlx. destruct (anc_is_prefix loc x Hl H) as [Hs _].
+          rewrite Hs. cbn [orb]. apply Hanc'. exact H.
+        * assert (Hs : sprefix x loc = false).
+          { destruct (sprefix x loc) eqn:Es; [|reflexivity]. exfalso. apply H. apply sprefix_in_anc; assumption. }
+          rewrite Hs. cbn [orb]. rewrite (Hother x H Hxl). exact (Hzone x Hgx).
   Qed.
 End Refine.
